@@ -278,6 +278,37 @@ func memGen(c *Ctx) {
 			}
 		}
 	}
+	if c.Want("hotreg") {
+		// register read-back while the hardware behind the register is busy: sound channels running, the timer within
+		// cycles of an overflow / in its reload cycle, a serial transfer or DMA under way
+		rng := c.Rand(606)
+		nh := 3
+		if c.Thorough() {
+			nh = 40
+		}
+		for _, mode := range []string{"poweron", "lcdoff"} {
+			var ops []memOp
+			for a := 0xff00; a <= 0xff80; a++ {
+				if a == 0xff46 || a == 0xff44 || a == 0xff04 || (a >= 0xff10 && a < 0xff40) {
+					continue // DMA / LY / DIV have their own families, the sound registers belong to C18
+				}
+				for k := 0; k < nh; k++ {
+					v := []int{0x00, 0xff, 0x05}[k%3]
+					if k >= 3 {
+						v = rng.Intn(256)
+					}
+					ops = append(ops, memOp{"hot", rng.Intn(1 << 20), rng.Intn(256)}, memOp{"tick", rng.Intn(14), 0}, memOp{"w", a, v}, memOp{"r", a, 0})
+					if len(ops) >= 400 {
+						add("hotreg", mode, int64(rng.Intn(1<<30)), ops)
+						ops = nil
+					}
+				}
+			}
+			if len(ops) > 0 {
+				add("hotreg", mode, int64(rng.Intn(1<<30)), ops)
+			}
+		}
+	}
 	if c.Want("bulk") {
 		// strided sweep of the bulk regions (every address in thorough), a few values each
 		rng := c.Rand(602)
